@@ -381,11 +381,13 @@ fn jstr(s: &str) -> String {
 
 // names with multi-byte characters at every small byte offset (code that slices names at a
 // fixed offset must land inside a character for some of them), schemes in mixed case, Windows paths
-const WORDS: [&str; 38] = [
+const WORDS: [&str; 46] = [
     "a.js", "b/c.js", "/abs/d.js", "http://h/e.js", "", "ünï.js", "x\"y.js", "foo", "bar", "function", "€", "👌",
     "aé.js", "abé.js", "abcé.js", "src/é.js", "src/a€.js", "lib/ab👌.js", "日本語.js", "abcd👌e", "HTTP://H/x.js", "Https://h/é",
     "C:\\dir\\f.js", "a/b/../c.js", "/", "//x", "http:", "https:/é", "abcdef€", "ab/cd/ef/gh.js",
     "/srv/app/src/é.js", "/srv/app/src/a.js", "/srv/app/lib/b.js", "/srv/app/lib/深/c.js", "/srv/app", "C:\\p\\a.js", "C:\\p\\q\\b.js", "src/lib/x.js",
+    // the same Windows paths in the other spelling, mixed separators, a bare drive directory, UNC
+    "C:/p/a.js", "C:/p/q/b.js", "C:\\p/q\\b.js", "C:\\p", "C:/p", "c:\\p\\a.js", "\\\\srv\\share\\a.js", "C:\\p\\",
 ];
 
 fn word(rng: &mut Rng) -> &'static str {
